@@ -465,6 +465,7 @@ Plan gen_c03(uint64_t seed, const GenOpts &o) {
     g.p.w.cwd_depth = depth;
     g.p.w.cwd_comp = target / depth - 1;
   }
+  if (g.chance(12)) g.p.w.low_fds = (int) g.r.below(8);  // the caller may have closed some of its standard descriptors
   g.p.w.parent_env.clear();
   int npe = (int) g.r.range(0, 12);
   if (g.chance(6)) npe = (int) g.pick({ 62, 63, 64, 65, 127, 128, 129, 300 });  // counts around typical growth steps of a vector
@@ -516,6 +517,8 @@ Plan gen_c03(uint64_t seed, const GenOpts &o) {
     Kind k = ks[g.r.below(5)];
     g.fault(1, k, (int) g.r.range(1, k == K_malloc ? 20 : 3), false, k == K_getcwd ? (int) g.pick({ ENOENT, EACCES, ERANGE }) : F_NULL);
   }
+  // the program file is busy (somebody has it open for writing) at the first attempt to run it
+  else if (!s.fork && g.chance(6)) g.fault(1, K_execvp, 1, true, ETXTBSY);
   Op &w = g.op(OP_WAIT, 0); w.a = g.C.INFINITE_;
   g.op(OP_DESTROY, 0);
   return g.p;
@@ -542,6 +545,7 @@ Plan gen_start_scenario(uint64_t seed, const GenOpts &o, const char *name) {
   g.p.w.k.jitter_mode = 0;
   g.p.w.k.rlim_cur = (uint64_t) g.pick({ 24, 32, 64 });
   if (g.chance(30)) g.p.w.low_fds = (int) g.r.below(8);
+  if (g.chance(4)) { g.p.w.cwd_depth = 17; g.p.w.cwd_comp = 255; }  // a caller working far below the root: parent path + program beyond PATH_MAX
   if (std::string(name) == "C12") {
     g.p.w.mask = g.r.next();
     int ni = (int) g.r.range(0, 5), nhd = (int) g.r.range(0, 5);
@@ -712,7 +716,7 @@ Plan gen_c07(uint64_t seed, const GenOpts &o) {
   if (pre == 5) { g.op(OP_KILL, 0); if (g.chance(50)) g.op(OP_SLEEP, -1).a = 1; }
   if (pre == 1) g.op(OP_SLEEP, -1).a = g.pick({ 1, 5, 20, 60, 150 });
   if (pre == 2) { g.op(OP_SLEEP, -1).a = g.pick({ 5, 60, 150 }); g.op(OP_WAIT, 0).a = 0; }
-  if (pre == 3) g.op(OP_WAIT, 0).a = g.pick({ 0, 10, 200 });
+  if (pre == 3) { g.op(OP_WAIT, 0).a = g.pick({ 0, 10, 200 }); if (g.chance(15)) g.fault((int) g.p.ops.size() - 1, K_waitpid, 1, false, ECHILD); }
   if (mode <= 6 || mode == 9) {
     Op &op = g.op(OP_STOP, 0);
     op.a = stop[0]; op.b = stop[1]; op.c = stop[2]; op.d = stop[3]; op.e = stop[4]; op.f = stop[5];
@@ -759,7 +763,12 @@ Plan gen_c15(uint64_t seed, const GenOpts &o) {
     if (state == 5) { s.fork = true; s.argv_null = true; }
     Op &st = g.op(OP_START, 0); st.spec = g.add_start(s); st.a = state == 5 ? 1 : 0;
     if (state == 3) g.op(OP_SLEEP, -1).a = T < 1000 ? T + 5 : 5;
-    if (state == 4) { g.op(OP_KILL, 0); g.op(OP_WAIT, 0).a = g.C.INFINITE_; }
+    if (state == 4) {
+      g.op(OP_KILL, 0); g.op(OP_WAIT, 0).a = g.C.INFINITE_;
+      // the child was collected by somebody else (SIGCHLD policy, a foreign wait): the explicit wait reports ECHILD; destroy
+      // must still come back at once
+      if (g.chance(25)) { g.fault((int) g.p.ops.size() - 1, K_waitpid, 1, false, ECHILD); if (g.chance(50)) { Op &sp = g.op(OP_STOP, 0); sp.a = g.C.S_WAIT; sp.b = g.pick({ 0, 20 }); } }
+    }
     if (state == 2 && g.chance(50)) g.op(OP_SLEEP, -1).a = g.pick({ 1, 10, 30, 70 });
   }
   g.op(OP_DESTROY, state == 6 ? -1 : 0);
@@ -1280,9 +1289,12 @@ Plan gen_c20(uint64_t seed, const GenOpts &o) {
         if (g.chance(40)) { s.wd = (int) g.pick({ 1, 5 }); s.prog = (int) g.pick({ 1, 2, 10 }); }
         if (g.chance(35)) s.err.path = 1;  // a redirect file that has to be created
         if (g.chance(12)) { s.fork = true; s.argv_null = true; s.prog = 0; }  // a forked copy of the caller instead of a program
+        else if (g.chance(10)) s.prog = (int) g.pick({ 4, 5 });  // a start that fails in the child while the other threads' children come and go
         Op &st = g.op(OP_START, t, t); st.spec = g.add_start(s);
         Op &wr = g.op(OP_WRITE, t, t); wr.a = g.pick({ 1, 100 }); wr.c = 1;
         g.op(OP_CLOSE, t, t).a = g.C.STREAM_IN;
+        // a close that reports EINTR has closed the descriptor all the same: the number may already be another thread's
+        if (g.chance(15)) g.fault((int) g.p.ops.size() - 1, K_close, 1, false, EINTR);
         Op &rd = g.op(OP_READ, t, t); rd.a = g.C.STREAM_OUT; rd.b = 64; rd.c = 1;
         g.op(OP_WAIT, t, t).a = 3000;
         if (t == 0) g.op(OP_STRERROR, -1, t).a = -22;
